@@ -95,6 +95,8 @@ def sources(body):
             continue
         t = b["t"]
         if t["t"] == "assert":
+            if t["msg"] in ("ptr_misaligned", "ptr_null", "invalid_enum"):
+                continue  # compiler-inserted UB checks of debug builds, not panics of the program logic
             out.append({"kind": "assert", "what": t["msg"], "bb": bi, "line": t.get("line"), "term": t, "exp": t.get("exp")})
         elif t["t"] == "call":
             c = classify_call(t)
@@ -620,11 +622,16 @@ def discharged(body, src, facts=None, prog=None):
         if not t.get("args"):
             return None
         x = norm_key(body.key_of_operand(t["args"][0]))
+        # unwrap of `opt.as_ref()` / `opt.as_mut()` / `opt.map(f)` is guarded by a test on `opt`
+        xs = {x}
+        m = re.match(r"^Option::(as_ref|as_mut|as_deref|as_deref_mut|map|copied|cloned)\(&?(.*?)(,fn:.*|,agg:.*)?\)$", x)
+        if m:
+            xs.add(norm_key(m.group(2)))
         for pol, f in here:
             if len(f) == 2:
                 name, k = f
                 k = norm_key(k)
-                if k == x and ((pol and name in ("is_some", "is_ok")) or (not pol and name in ("is_none", "is_err"))):
+                if k in xs and ((pol and name in ("is_some", "is_ok")) or (not pol and name in ("is_none", "is_err"))):
                     return "unwrap dominated by %s%s on the same value" % ("" if pol else "!", name)
         return None
     return None
